@@ -30,8 +30,14 @@ def main(argv=None):
     od += [SR.random_super_input(rng, 4, rng.randint(2, 3), 3, True) for _ in range(8 if q else 100)]
     poly_u = [SR.random_poly_input(rng, rng.randint(3, 4), rng.randint(2, 4), rng.randint(2, 3), False, True, (not q) and rng.random() < 0.4) for _ in range(10 if q else 150)]
     poly_o = [SR.random_poly_input(rng, rng.randint(3, 4), rng.randint(2, 3), rng.randint(2, 3), True, True, (not q) and rng.random() < 0.3) for _ in range(8 if q else 100)]
+    deep_u = [SR.random_super_input(rng, rng.randint(5, 6), rng.randint(2, 4), rng.randint(2, 3), False) for _ in range(10 if q else 300)]
+    deep_o = [SR.random_super_input(rng, rng.randint(4, 5), rng.randint(2, 4), rng.randint(3, 4), True, rootsyn_p=0.1, consistent_p=0.9) for _ in range(8 if q else 200)]
+    deep_p = [D.random_deep_input(rng, rng.randint(4, 5), rng.randint(4, 6)) for _ in range(30 if q else 600)]
     pol = ["any", "all"]
     sections = [
+        ("deeper inputs: unordered 5-6 leaves (dup, hgt, sloss symbolic)", [(d, SR.runs_for(["base_uspfs", "superdtl"], ["any"] if q else pol, FLAGS, "dhs", coherent=False)) for d in deep_u], False),
+        ("deeper inputs: ordered 4-5 leaves x 3-4 families (dup, hgt, sloss symbolic)", [(d, SR.runs_for(["base_spfs", "ext_spfs"], ["any"], FLAGS, "dhs", coherent=False)) for d in deep_o], False),
+        ("deeper inputs: plain 4-6 leaves on deep species trees (dup, hgt symbolic)", [(d, SR.runs_for(["lca", "thl", "exh"], ["any"] if q else pol, FLAGS, "dhs", coherent=False)) for d in deep_p], False),
         ("plain: lca, thl, exh", [(d, SR.runs_for(["lca", "thl", "exh"], pol, FLAGS, "full", coherent=False)) for d in plain], False),
         ("unordered: base_uspfs, superdtl", [(d, SR.runs_for(["base_uspfs", "superdtl"], pol, FLAGS, "full", coherent=False)) for d in un], False),
         ("ordered: base_spfs, ext_spfs", [(d, SR.runs_for(["base_spfs", "ext_spfs"], pol, FLAGS, "full", coherent=False)) for d in od], False),
@@ -42,7 +48,8 @@ def main(argv=None):
         PROP, tier, seed, sections, ["plain", "unordered", "ordered", "dp", "poly"],
         bounds={"inputs": "plain: every input with 1-3 object x 1-3 species leaves + seeded 4-leaf inputs; unordered: seeded 2-4 leaves, 1-3 species leaves, "
                           "1-3 families; ordered: seeded 2-4 leaves, 1-3 families (some with mutually inconsistent orders or a prescribed root); "
-                          "polytomies: seeded inputs with one 3-way polytomy in the object tree and sometimes in the species tree (3-4 leaves)",
+                          "deeper inputs (dup, hgt[, sloss] symbolic; spe = 0, floss = 1): unordered 5-6 leaves, ordered 4-5 leaves x 3-4 families, plain 4-6 leaves on "
+                          "(caterpillar) species trees with 4-6 leaves; polytomies: seeded inputs with one 3-way polytomy in the object tree and sometimes in the species tree (3-4 leaves)",
                 "costs": "all symbolic costs range over ALL non-negative integers, no coherence restriction; sloss = 0 faces are explored because the code "
                          "branches on them; second run hgt = infinity.inf; polytomy inputs: dup, hgt, sloss symbolic (spe = 0, floss = 1)",
                 "algorithms": "lca, thl, exh, base_spfs, ext_spfs, base_uspfs, superdtl; policies any and all"},
@@ -51,7 +58,7 @@ def main(argv=None):
                     "by independent oracles. The solver's role is path coverage over the whole cost space (which solutions are returned depends on it).",
         rule="one evaluation = one structural input explored for the listed algorithms and policies; non-trivial = exploration forked on a cost comparison",
         outside=["inputs beyond the stated sizes", "base solvers and plain solvers on multifurcating inputs (not promised)", "negative or non-integer costs"],
-        budget=120 if q else 2400, max_paths=6000 if q else 30000, budget_s=200.0 if q else 900.0)
+        budget=170 if q else 3000, max_paths=6000 if q else 30000, budget_s=200.0 if q else 900.0)
 
 
 if __name__ == "__main__":
